@@ -6,7 +6,7 @@ import Op2Model.Tileset
 # The custom tileset reader: what acceptance implies (`custom_ok`), no fault, locality; the detector evaluated
 -/
 namespace Op2.Tileset
-open Op2 Op2.Bmp Op2.Parser
+open Op2 Op2.Bmp Op2.Parser Op2.Parser.BmpInv
 
 /-! ### `CreateIndexed` as used by the reader -/
 
